@@ -82,6 +82,8 @@ def gen_rc3(rng):
         kind = rng.choice(["t", "r", "m"])
         t = [rng.uniform(-2, 2) if kind != "r" else 0.0 for _ in range(3)]
         e = rnd_e(rng) if kind != "t" else [0.0, 0.0, 0.0]
+        if kind != "t" and rng.random() < 0.3:
+            e[1] = rng.choice([-1, 1]) * rng.uniform(math.pi / 2 + 0.05, 3.1)      # a solver step may take the pitch anywhere: Rx Ry Rz for every triple
         sets.append(t + e)
     p = [rng.uniform(-5, 5) for _ in range(3)]
     off = rng.choice([1.0, 1.0, 1e-3, 1e-5, 1e-6, 1e-7, 0.0])      # test point and reference: far, near (a converged alignment), coincident
